@@ -16,6 +16,7 @@ import CifModel.Basic
     * cif_loop_get_names               (loop.c)     — cif_loop_get_names_internal(normalize = 0) on a stored loop:
                                                       linked list of (node, string), then the array of strings
     * cif_value_copy_char              (value.c)    — copy the text, then cif_value_init_char (clean + take ownership)
+    * cif_value_deserialize            (value.c)    — DESERIALIZE / cif_list_deserialize for list blobs without numbers
     * cif_packet_create                (packet.c)   — array of normalised names (cif_normalize: three buffers per ASCII
                                                       name), cif_packet_create_norm (packet, entries, uthash's table and
                                                       bucket array on the first HASH_ADD), copies of respelled names
@@ -429,5 +430,61 @@ def packetCreateGen (fixed : Bool) (failAt : Nat) (respelled : List Bool) (s : S
 def packetCreatePinned (failAt : Nat) (respelled : List Bool) (s : St := {}) := packetCreateGen false failAt respelled s
 /-- with the proposed repair of cif_packet_create_norm's failure handler -/
 def packetCreate (failAt : Nat) (respelled : List Bool) (s : St := {}) := packetCreateGen true failAt respelled s
+
+-- ---------------------------------------------------------------------------------------------------------------
+-- cif_value_deserialize(blob, len, dest) for the blob of a LIST value (the library stores only lists and tables as
+-- blobs) whose elements are unknown/na values, character values and lists of such; `dest` exists before the call.
+-- Not covered: numbers (they run cif_value_parse_numb, open finding F31 …/cif_value_parse_numb/leak) and tables.
+
+/-- shapes covered by the deserialisation ladder -/
+inductive DShape
+  | scalar                        -- unknown / not-applicable
+  | chr                           -- character value: the text
+  | lst (elems : List DShape)     -- list: element array (none when empty) + the elements
+deriving Repr
+
+mutual
+  /-- the DESERIALIZE macro for a list element: the value object `obj` has just been allocated by the macro
+      (`value == NULL`); on failure `FAILURE_HANDLER(vfail): if (val != value) free(val);`.  An empty list owns no element
+      array (cif_list_deserialize: `capacity == 0`), so its ownership is that of a scalar. -/
+  def deserInto (failAt : Nat) (obj : Nat) : DShape → St → Option Owned × St
+    | .scalar, s => (some (.scalar obj), s)
+    | .chr, s =>
+      match alloc failAt s with                                   -- DESERIALIZE_USTRING: malloc((size + 1) * sizeof(UChar))
+      | (none, s') => (none, free obj s')
+      | (some t, s') => (some (.chr obj t), s')
+    | .lst elems, s =>
+      if elems.isEmpty then (some (.scalar obj), s)
+      else
+        match alloc failAt s with                                 -- cif_list_deserialize: the element array
+        | (none, s') => (none, free obj s')
+        | (some arr, s') =>
+          match deserElems failAt elems [] s' with
+          | (some es, s'') => (some (.lst obj arr es), s'')
+          | (none, s'') => (none, free obj (free arr s''))          -- handler(element) … free(elements); then vfail
+  /-- the element loop of cif_list_deserialize; `done` = elements so far, most recent first.  On failure
+      `while (size > 0) cif_value_free(elements[--size]);` -/
+  def deserElems (failAt : Nat) : List DShape → List Owned → St → Option (List Owned) × St
+    | [], done, s => (some done.reverse, s)
+    | sh :: rest, done, s =>
+      match alloc failAt s with                                   -- DESERIALIZE: malloc(sizeof(cif_value_tp))
+      | (none, s') => (none, freeOwnedRev done.reverse s')
+      | (some obj, s') =>
+        match deserInto failAt obj sh s' with
+        | (some o, s'') => deserElems failAt rest (o :: done) s''
+        | (none, s'') => (none, freeOwnedRev done.reverse s'')
+end
+
+/-- `cif_value_deserialize` of a list blob onto the existing object `dest` (not a block of the window).
+    Returns (result code, component ids `dest` gained, final state); the failure code is CIF_ERROR (DEFAULT_FAIL). -/
+def deserialize (failAt : Nat) (elems : List DShape) (s : St := {}) : Nat × Option (List Nat) × St :=
+  if elems.isEmpty then (OK, some [], s)
+  else
+    match alloc failAt s with
+    | (none, s') => (ERROR, none, s')
+    | (some arr, s') =>
+      match deserElems failAt elems [] s' with
+      | (some es, s'') => (OK, some (arr :: Owned.idsList es), s'')
+      | (none, s'') => (ERROR, none, free arr s'')
 
 end CifModel.Model.Ladder
